@@ -487,8 +487,100 @@ def oracle_texture(dg, st, geo, os, name, rng):
             fails.append("observed misorientation density is not a probability density on unit bins")
         single = np.repeat(os[:1], max(2, len(os)), axis=0)
         ms = float(dg.misorientation_index(single, s))
-        if ms < 0.5 * (1 + T) - 0.02:
-            fails.append(f"M-index of a single-orientation texture is {ms!r}")
+        hs, _ = st.misorientation_hist(single, s)
+        if hs[0] != 1.0 or np.any(hs[1:] != 0):
+            fails.append("pair angles of a single-orientation texture are not all in the first bin")
+        th0 = float(st.misorientations_random(0, 1, s))
+        if abs(ms - (0.5 * (1 + T) - th0)) > 1e-9:   # C14_mindex_single_closed_form
+            fails.append(f"M-index of a single-orientation texture is {ms!r}, not (1 + T) / 2 - theory[0] = {0.5 * (1 + T) - th0!r}")
+        if name in GOOD_MASS and abs(ms - 1) > 1e-4 + 1e-9:   # C14_mindex_single
+            fails.append(f"M-index of a single-orientation texture is {ms!r}, not within 1e-4 of 1")
+    return fails
+
+
+# call-sequence probe: the index of one texture for a SEQUENCE of lattice systems evaluated in
+# one process must not depend on what was evaluated before (state kept between calls)
+CALL_SEQUENCE = ["orthorhombic", "monoclinic", "triclinic", "monoclinic", "triclinic",
+                 "hexagonal", "tetragonal", "hexagonal", "orthorhombic"]
+
+_FRESH_SNIPPET = r"""
+import sys, json, warnings
+import numpy as np
+d = json.load(sys.stdin)
+import pydrex.diagnostics as dg, pydrex.geometry as geo
+os_ = np.array([float.fromhex(x) for x in d["os"]]).reshape(-1, 3, 3)
+with warnings.catch_warnings():
+    warnings.simplefilter("ignore")
+    try:
+        print("RESULT", float(dg.misorientation_index(os_, getattr(geo.LatticeSystem, d["system"]))).hex())
+    except Exception as e:
+        print("RESULT", "ERR:" + type(e).__name__)
+"""
+
+
+def fresh_process_values(os, names):
+    """misorientation_index(os, system) as the FIRST call of a new interpreter, one process per
+    system (started together)"""
+    import json
+    import subprocess
+    procs = {}
+    for name in names:
+        p = subprocess.Popen([common.PY, "-c", _FRESH_SNIPPET], stdin=subprocess.PIPE, stdout=subprocess.PIPE,
+                             stderr=subprocess.DEVNULL, text=True)
+        p.stdin.write(json.dumps({"os": [hx(x) for x in os.reshape(-1)], "system": name}))
+        p.stdin.close()
+        procs[name] = p
+    out = {}
+    for name, p in procs.items():
+        txt = p.stdout.read()
+        p.wait(timeout=600)
+        m = re.search(r"RESULT (\S+)", txt)
+        out[name] = None if not m else (m.group(1) if m.group(1).startswith("ERR:") else float.fromhex(m.group(1)))
+    return out
+
+
+def rebuilt_index(st, os, s):
+    """the index recomputed from the public pieces (Skemer et al. 2005, eq. 2)"""
+    h, e = st.misorientation_hist(os, s)
+    th = st._max_misorientation(s)
+    theory = np.array([st.misorientations_random(e[i], e[i + 1], s) for i in range(len(h))])
+    return float(th / (2 * len(h)) * np.abs(theory - h).sum())
+
+
+def oracle_sequence(dg, st, geo, os, seq, fresh=True):
+    fails, vals = [], []
+    with warnings.catch_warnings():
+        warnings.simplefilter("ignore")
+        for pos, name in enumerate(seq):
+            s = lattice(geo, name)
+            try:
+                v = float(dg.misorientation_index(os, s))
+            except Exception as e:  # noqa: BLE001
+                v = "ERR:" + type(e).__name__
+            vals.append(v)
+            if isinstance(v, float):
+                try:
+                    rb = rebuilt_index(st, os, s)
+                    if abs(rb - v) > 1e-9:
+                        fails.append(f"call {pos} ({name}) of the sequence {seq}: misorientation_index = {v!r} but "
+                                     f"misorientation_hist + misorientations_random give {rb!r}")
+                except Exception:  # noqa: BLE001
+                    pass
+        for i, a in enumerate(seq):
+            for j in range(i + 1, len(seq)):
+                if seq[j] == a and vals[i] != vals[j] and not (isinstance(vals[i], float) and isinstance(vals[j], float)
+                                                               and abs(vals[i] - vals[j]) <= 1e-12):
+                    fails.append(f"the same call ({a}) gives {vals[i]!r} at position {i} and {vals[j]!r} at position {j} of the sequence {seq}")
+        if fresh:
+            ref = fresh_process_values(os, sorted(set(seq)))
+            for pos, (name, v) in enumerate(zip(seq, vals)):
+                r = ref.get(name)
+                if r is None:
+                    continue
+                same = (r == v) if not (isinstance(r, float) and isinstance(v, float)) else abs(r - v) <= 1e-12
+                if not same:
+                    fails.append(f"call {pos} ({name}) of the sequence {seq} in one process gives {v!r}, the same call as the "
+                                 f"first call of a fresh process gives {r!r} (result depends on the call history)")
     return fails
 
 
@@ -524,6 +616,11 @@ def search(chk, extra=()):
         fails = oracle_texture(dg, st, geo, os, name, np.random.default_rng(chk.seed + 2))
         if fails:
             add(dict(call="misorientation_index", system=name, n_grains=len(os), orientations=[hx(x) for x in os.reshape(-1)]), fails)
+    seq_os = next((o for o, _ in pool if 2 <= len(o) <= 60), texture(rng, "clustered", 6))
+    fails = oracle_sequence(dg, st, geo, seq_os, CALL_SEQUENCE)
+    if fails:
+        add(dict(call="misorientation_index_sequence", sequence=CALL_SEQUENCE, n_grains=len(seq_os),
+                 orientations=[hx(x) for x in seq_os.reshape(-1)]), fails)
     for m in extra:
         if "stack" in m:
             w = m.get("ncpus", 2)
@@ -540,7 +637,7 @@ def run(chk):
         "hand-written Model_mindex.v (quaternion product variant, operator lists, pair angles, histogram, Grimmer density, index), tied to the source by this differential run (tie H); the operator lists and the density are transcribed formulas, compared entry by entry / bin by bin",
         "scipy Rotation.as_quat is an oracle: unit quaternion whose rotation matrix is the input (checked on every recorded call to 1e-10)",
         "the code stores the operator-multiplied quaternions in float32; the binary64 model is compared at 2e-6 in cos(angle/2), and the index from the full model path up to the pairs whose bin differs (counted as near_discontinuity); histogram and index from the RECORDED angles are compared at 1e-10",
-        "process pools (misorientation_indices) are outside the model: batched_is_map is about the model of imap as an order-preserving map; equality and order under 1..4 [thorough 1..16] workers and an external pool are measured at run time only",
+        "process pools (misorientation_indices) are outside the model: C14_batched_iff / _positional / _chunks / _first_error are about the model of imap as an order-preserving map (any chunking of the stack); equality and order under 1..4 [thorough 1..16] workers and an external pool are measured at run time only",
     ]
     chk.cov["rule"] = ("textures: 120 [thorough 480] = 6 lattice systems x {random (Haar), clustered (sigma 0.5 rad), tight (0.08 rad), single orientation} x "
                        "n_grains in {2,3,5,10,20,40,80} and two textures of 200 grains [thorough: {2,...,120,200} for every system]; plus every unit bin and random / invalid (low, high) of misorientations_random for all systems, "
@@ -597,6 +694,9 @@ def replay(d):
     if i["call"] == "misorientation_index":
         os = np.array([u(x) for x in i["orientations"]]).reshape(i["n_grains"], 3, 3)
         fails = oracle_texture(dg, st, geo, os, i["system"], np.random.default_rng(d.get("seed", 0) + 2))
+    elif i["call"] == "misorientation_index_sequence":
+        os = np.array([u(x) for x in i["orientations"]]).reshape(i["n_grains"], 3, 3)
+        fails = oracle_sequence(dg, st, geo, os, i["sequence"])
     elif i["call"] == "misorientation_indices":
         stack = np.array([u(x) for x in i["stack"]]).reshape(i["shape"])
         fails = oracle_batched(dg, geo, stack, i["ncpus"])
